@@ -66,7 +66,7 @@ Qed.
 Lemma step_B s f ag s' ag' : InvB s -> step s f ag = (s', ag') -> InvB s'.
 Proof.
   intros HB H. pose proof HB as [Hp Hs].
-  destruct f as [[cb|full nl cb| | |r|]| | | |]; cbn [step do_op] in H.
+  destruct f as [[sn cb|full nl cb| | |r|]| | | |]; cbn [step do_op] in H.
   - destruct (s_max s <=? len (s_queue s)).
     + inversion H; subst. eapply InvB_view; [|exact HB]. reflexivity.
     + apply take_next_B in H; [|exact Hp]. eapply InvB_view; [|exact HB]. rewrite H. reflexivity.
